@@ -97,6 +97,29 @@ func c07Read(r *core.Run, p C07Case) {
 		}
 		r.Trans("terminate:" + modeNames[p.Mode] + fmt.Sprintf(" empty=%v", len(plain) == 0))
 		c07Judge(r, p, data, plain, "mode="+modeNames[p.Mode], fmt.Sprintf("fill(%d) %s props code %d (%v) mode %s DictCap %d", p.Fill, symsString(p.Syms), p.Code, pr, modeNames[p.Mode], p.DictCap))
+	case "runs":
+		// literal 'B', then a run of Fill x 'A' (literal + matches of 273 bytes at distance 1), a tail:
+		// decoded with a 4 KiB window, the maximal matches arrive at every phase of the ring buffer
+		ops := []ref.Op{{Kind: ref.OpLit, Byte: 'B'}, {Kind: ref.OpLit, Byte: 'A'}}
+		for n := p.Fill - 1; n > 0; {
+			l := n
+			if l > 273 {
+				l = 273
+			}
+			if l == 1 {
+				ops = append(ops, ref.Op{Kind: ref.OpLit, Byte: 'A'})
+			} else {
+				ops = append(ops, ref.Op{Kind: ref.OpMatch, Len: l, Dist: 1})
+			}
+			n -= l
+		}
+		ops = append(ops, ref.Op{Kind: ref.OpLit, Byte: 'c'})
+		pr, _ := ref.PropsFromCode(byte(p.Code))
+		data, plain, err := ref.EncodeAlone(pr, 4096, ops, p.Mode != 0, p.Mode != 1)
+		if err != nil {
+			panic(err)
+		}
+		c07Judge(r, p, data, plain, "long-runs", fmt.Sprintf("'B', run of %d x 'A' (matches of 273 at distance 1), 'c'; header dictionary 4096, mode %s, ReaderConfig.DictCap %d", p.Fill, modeNames[p.Mode], p.DictCap))
 	case "walk":
 		pr, _ := ref.PropsFromCode(byte(p.Code))
 		data, plain, err := ref.EncodeAlone(pr, 1<<20, longWalk(p.Fill, 3000), p.Mode != 0, p.Mode != 1)
@@ -204,6 +227,13 @@ func runC07(r *core.Run) {
 				cases = append(cases, C07Case{Kind: "walk", Fill: seed, Code: code, Mode: mode, DictCap: 4096})
 			}
 		}
+	}
+	// long runs at every phase of a 4 KiB reader window
+	for n := 8100; n < 8400; n++ {
+		cases = append(cases, C07Case{Kind: "runs", Fill: n, Code: 93, Mode: n % 3, DictCap: 4096})
+	}
+	for n := 20000; n < 20280; n += 3 {
+		cases = append(cases, C07Case{Kind: "runs", Fill: n, Code: 0, Mode: n % 3, DictCap: 4096})
 	}
 	for _, e := range corpus {
 		if e.Kind == "lzma" {
